@@ -211,8 +211,14 @@ def job(c):
         try:
             dsl.build(prog(4, c["ctx"]))
         except Exception as e:
-            res["ok"] = False
-            res["error"] = f"context does not build: {type(e).__name__}: {e}"[:200]
+            # the context is well-formed by construction: a constructor that refuses it violates "well-formed accepted"
+            res["outcome"] = "reject"
+            res["exp"] = "accept"
+            res["label"] = "context-of:" + c["label"].split("/")[0].split(":")[0]
+            res["exc"] = type(e).__name__
+            res["msg"] = f"the well-formed context does not build: {e}"[:120]
+            res["src"] = dsl.gen_source(prog(4, c["ctx"]), header=False).splitlines()[-3:]
+            res["context_failed"] = True
             return res
         try:
             built = dsl.build(program)
@@ -294,6 +300,8 @@ def main(tier):
             n_exp += 1
             if r["outcome"] != r["exp"]:
                 case = by_idx[r["idx"]]
+                if r.get("context_failed"):
+                    case = dict(case, test=[], exp="accept", label=r["label"])
                 sig = {"dir": "validation", "element": r["label"], "expected": r["exp"], "got": r["outcome"]}
                 chk.violation(sig, {"case": case, "observed": r, "expect": "validation"})
         if len(chk.samples) < 6 and r.get("src"):
